@@ -20,6 +20,7 @@ def specStep (ttl : Nat → Nat) (s : SpecSt) : Ev → SpecSt
     ⟨put s.store (kind, id) (expiry s.now (ttl kind)), s.now, s.good && !live s.store s.now (kind, id)⟩
   | .exh _ _ => s
   | .nop _ => s
+  | .err _ => s
   | .rel _ kind id => ⟨erase s.store (kind, id), s.now, s.good⟩
   | .rnw _ kind id => ⟨put s.store (kind, id) (expiry s.now (ttl kind)), s.now, s.good⟩
   | .tick dt => ⟨s.store, s.now + dt, s.good⟩
